@@ -267,6 +267,16 @@ def gen_names(repo: str) -> str:
     else:
         schema_typed = False
 
+    sdn = _src(_method(df, "_set_display_names"))
+    if "order" not in sdn:
+        order_respell = "none"
+    elif "key = ordered.this if isinstance(ordered, exp.Ordered) else ordered" in sdn and "if isinstance(key, exp.Column) and (not key.table) and (key.name in renamed):" in sdn and "key.set('this', renamed[key.name].copy())" in sdn:
+        order_respell = "bare"  # only an ORDER BY key that IS a column is spelled like the display alias
+    elif re.search(r"for key in \w+\.find_all\(exp\.Column\):", sdn) and "key.set('this', renamed[key.name].copy())" in sdn:
+        order_respell = "all"  # every column inside an ORDER BY key
+    else:
+        raise Untranslatable(OB + ".orderByRespell", "unrecognised ORDER BY handling in _set_display_names")
+
     ob = _src(_method(df, "orderBy"))
     if "sqlglot.parse_one(f'{col.expression.sql(dialect=self.session.input_dialect)} " in ob and "into=exp.Ordered)" in ob:
         order_reparse = True
@@ -303,6 +313,9 @@ def gen_names(repo: str) -> str:
     L.append(f"def unionByNameReselects : Bool := {b(union_resel)}")
     L.append(f"def schemaUsesTypedName : Bool := {b(schema_typed)}")
     L.append(f"def orderByReparsesText : Bool := {b(order_reparse)}")
+    L.append("/-- which columns of an ORDER BY key `_set_display_names` spells like the display alias of the same block -/")
+    L.append("inductive OrderRespell | none | bare | all deriving DecidableEq, Repr")
+    L.append(f"def orderByRespell : OrderRespell := .{order_respell}")
     L.append(f"def collectFrom : String := {lean_str(cfrom)}")
     L.append(f"def collectTo : String := {lean_str(cto)}")
     L.append(f"def collectCaseSensitive : Bool := {b(ccs)}")
